@@ -2,6 +2,7 @@ package pschema
 
 import (
 	"encoding/json"
+	"os"
 	"testing"
 
 	ledger "github.com/formancehq/ledger/internal"
@@ -69,5 +70,43 @@ func TestReferenceOnDocumentedChart(t *testing.T) {
 		if got := ImplClass(&viaHarness, addr).String(); got != want {
 			t.Errorf("impl(harness json) %s: %s want %s", addr, got, want)
 		}
+	}
+}
+
+func TestParseChartInvertsJSON(t *testing.T) {
+	f := specialFamily()
+	for i := 0; i < f.Count; i++ {
+		ch := f.At(i)
+		back, err := parseChart(ch.JSON())
+		if err != nil {
+			t.Fatal(err)
+		}
+		if back.JSON() != ch.JSON() {
+			t.Fatalf("parseChart(%s) = %s", ch.JSON(), back.JSON())
+		}
+		for _, a := range f.Addrs {
+			if !ch.Classify(a).Equal(back.Classify(a)) {
+				t.Fatalf("%s: %s classified differently after parse", ch.JSON(), a)
+			}
+		}
+	}
+}
+
+// PSCHEMA_REPLAY=/verif/replays/C29-….json go test ./pschema -run TestReplay -v
+func TestReplay(t *testing.T) {
+	path := os.Getenv("PSCHEMA_REPLAY")
+	if path == "" {
+		t.Skip("PSCHEMA_REPLAY not set")
+	}
+	if os.Getenv("VERIF_ROOT") == "" {
+		t.Setenv("VERIF_ROOT", t.TempDir())
+	}
+	code, err := Replay(path)
+	if err != nil {
+		t.Fatal(err)
+	}
+	t.Logf("verdict exit code %d (0 ok, 1 violation, 2 engine error)", code)
+	if code != 0 {
+		t.Fail()
 	}
 }
